@@ -6,9 +6,11 @@ Import ListNotations.
 
 Definition exn := (string * string)%type.   (* Python exception class name, message *)
 
-Inductive res (A : Type) : Type := Ok (a : A) | Raise (e : exn).
+(* OutOfFuel is the error value of fuelled loops; the theorems exclude it (Driver: fuel_suffices) *)
+Inductive res (A : Type) : Type := Ok (a : A) | Raise (e : exn) | OutOfFuel.
 Arguments Ok {A} a.
 Arguments Raise {A} e.
+Arguments OutOfFuel {A}.
 
 Section Monad.
   Variable Ev : Type.                       (* event type *)
@@ -21,7 +23,10 @@ Section Monad.
     match m with
     | (Ok a, t) => let '(r, t') := f a in (r, t ++ t')
     | (Raise e, t) => (Raise e, t)
+    | (OutOfFuel, t) => (OutOfFuel, t)
     end.
+  (* events of a sub-component embedded into the events of its client *)
+  Definition lift {Ev' A} (f : Ev' -> Ev) (m : res A * list Ev') : M A := (fst m, map f (snd m)).
   (* lift an answer of a user callable, recording the event built from it *)
   Definition call {A} (r : res A) (ev : Ev) : M A := (r, [ev]).
 End Monad.
@@ -30,6 +35,7 @@ Arguments raise {Ev A} e.
 Arguments emit {Ev} ev.
 Arguments bind {Ev A B} m f.
 Arguments call {Ev A} r ev.
+Arguments lift {Ev Ev' A} f m.
 
 Declare Scope monad_scope.
 Delimit Scope monad_scope with monad.
@@ -42,15 +48,25 @@ Section Lemmas.
   Lemma bind_ok_inv {A B} (m : M Ev A) (f : A -> M Ev B) b t :
     bind m f = (Ok b, t) -> exists a t1 t2, m = (Ok a, t1) /\ f a = (Ok b, t2) /\ t = t1 ++ t2.
   Proof.
-    unfold bind. destruct m as [[a|e] t1]; [|discriminate].
+    unfold bind. destruct m as [[a|e|] t1]; [|discriminate|discriminate].
     destruct (f a) as [r t2] eqn:E. intros H. inversion H; subst. exists a, t1, t2. auto.
   Qed.
   Lemma bind_raise_inv {A B} (m : M Ev A) (f : A -> M Ev B) e t :
     bind m f = (Raise e, t) ->
     m = (Raise e, t) \/ exists a t1 t2, m = (Ok a, t1) /\ f a = (Raise e, t2) /\ t = t1 ++ t2.
   Proof.
-    unfold bind. destruct m as [[a|e'] t1].
+    unfold bind. destruct m as [[a|e'|] t1].
     - destruct (f a) as [r t2] eqn:E. intros H. inversion H; subst. right. exists a, t1, t2. auto.
+    - intros H. inversion H; subst. now left.
+    - discriminate.
+  Qed.
+  Lemma bind_fuel_inv {A B} (m : M Ev A) (f : A -> M Ev B) t :
+    bind m f = (OutOfFuel, t) ->
+    m = (OutOfFuel, t) \/ exists a t1 t2, m = (Ok a, t1) /\ f a = (OutOfFuel, t2) /\ t = t1 ++ t2.
+  Proof.
+    unfold bind. destruct m as [[a|e'|] t1].
+    - destruct (f a) as [r t2] eqn:E. intros H. inversion H; subst. right. exists a, t1, t2. auto.
+    - discriminate.
     - intros H. inversion H; subst. now left.
   Qed.
   Lemma bind_ret_l {A B} (a : A) (f : A -> M Ev B) : bind (ret a) f = f a.
